@@ -288,7 +288,9 @@ func buildMap(view []series) *gostatsd.MetricMap {
 	mm := gostatsd.NewMetricMap(false)
 	ts := gostatsd.Nanotime(1700000000 * 1e9)
 	for _, s := range view {
-		tags := gostatsd.Tags(append([]string(nil), s.Tags...))
+		// spare capacity, as a tag slice grown tag by tag by the parser has: a backend that appends to a series'
+		// tags without copying then writes into a shared backing array
+		tags := append(make(gostatsd.Tags, 0, len(s.Tags)+3), s.Tags...)
 		src := gostatsd.Source(s.Src)
 		switch s.Kind {
 		case 'c':
